@@ -501,9 +501,89 @@ def rule_class_codes_vs_values(repo, rep):
   rep.floor('class-membership comparisons examined', n, 1)
 
 
+def rule_no_axisless_squeeze(repo, rep, modules=None):
+  R = 'R-SHAPE:no-axis-less-squeeze-of-a-batch'
+  rep.rule(R, 'no `.squeeze()` / `np.squeeze(x)` WITHOUT an axis is applied, '
+           'in the learners, to an array that still carries the sample / '
+           'constraint axis of the training data (a slice, a difference of '
+           'slices or np.diff along another axis of the validated input): it '
+           'removes every unit axis, so with exactly one sample or one '
+           'constraint the batch axis disappears too and later products '
+           'broadcast silently')
+  data_params = {'X', 'pairs', 'triplets', 'quadruplets', 'tuples',
+                 'input', 'points', 'pairs_valid'}
+  n = 0
+  for f in repo.all_functions():
+    if modules is not None and f.module.short not in modules:
+      continue
+    if f.module.short in ('_util', 'sklearn_shims', '_version'):
+      continue
+    data = set(p for p in f.params() if p in data_params)
+    for a in _ast.walk(f.node):
+      if isinstance(a, _ast.Assign) and isinstance(a.value, _ast.Call) and \
+              _ast.unparse(a.value.func).endswith('_prepare_inputs'):
+        t = a.targets[0]
+        if isinstance(t, _ast.Name):
+          data.add(t.id)
+        elif isinstance(t, _ast.Tuple) and t.elts and \
+                isinstance(t.elts[0], _ast.Name):
+          data.add(t.elts[0].id)
+
+    def batch(e):
+      """does e keep the leading sample axis of a data array?"""
+      if isinstance(e, _ast.Name):
+        return e.id in data
+      if isinstance(e, _ast.Subscript):
+        sl = e.slice
+        first = sl.elts[0] if isinstance(sl, _ast.Tuple) and sl.elts else sl
+        keeps = isinstance(first, _ast.Slice) or (
+            isinstance(first, _ast.Compare))
+        return keeps and batch(e.value)
+      if isinstance(e, _ast.BinOp) and isinstance(
+              e.op, (_ast.Add, _ast.Sub, _ast.Mult, _ast.Div)):
+        return batch(e.left) or batch(e.right)
+      if isinstance(e, _ast.Call) and _ast.unparse(e.func).endswith(
+              ('np.diff', 'numpy.diff')) and e.args:
+        ax = [k.value for k in e.keywords if k.arg == 'axis']
+        axv = _ast.unparse(ax[0]) if ax else '-1'
+        return axv not in ('0',) and batch(e.args[0])
+      if isinstance(e, _ast.Call) and isinstance(e.func, _ast.Attribute) and \
+              e.func.attr in ('copy', 'astype'):
+        return batch(e.func.value)
+      return False
+    for c in _ast.walk(f.node):
+      if not isinstance(c, _ast.Call):
+        continue
+      operand = None
+      if isinstance(c.func, _ast.Attribute) and c.func.attr == 'squeeze' and \
+              not c.args and not c.keywords and \
+              not _ast.unparse(c.func.value) in ('np', 'numpy'):
+        operand = c.func.value
+      elif _ast.unparse(c.func) in ('np.squeeze', 'numpy.squeeze') and \
+              len(c.args) == 1 and not c.keywords:
+        operand = c.args[0]
+      if operand is None:
+        continue
+      st_ = _astutil.stmt_of(f.node, c)
+      un = _astutil.unfold(operand, f.node.body, st_) \
+          if st_ in f.node.body else operand
+      n += 1
+      key = '%s:%s' % (f.key, _ast.unparse(c)[:40])
+      if batch(un):
+        rep.refuted(R, key, site(f, c), '%s squeezes every unit axis of an '
+                    'array that carries the sample / constraint axis of the '
+                    'training data: with a single sample or constraint that '
+                    'axis is removed as well' % _ast.unparse(c)[:60])
+      else:
+        rep.derived(R, key, site(f, c))
+  if n == 0:
+    rep.derived(R, 'package', '', sample=dict(rule=R, sites=0))
+
+
 def check(repo, rep, tier):
   api.run_rule(repo, rep)
   rule_class_codes_vs_values(repo, rep)
+  rule_no_axisless_squeeze(repo, rep)
   rule_return_self_and_components(repo, rep)
   rule_real_components(repo, rep)
   rule_defassign(repo, rep)
